@@ -9,10 +9,11 @@ if [ ! -f /repo/internal/cli/app/lib.zip ] || [ ! -f /repo/internal/i18n/message
   (cd /repo && go generate ./... ) || echo "setup: go generate failed (checks will retry)"
 fi
 (cd /repo && go build ./... ) || echo "setup: go build failed (checks will report)"
-for d in coq/Common $(ls -d coq/*/ | grep -v Common); do
+# two passes: a few groups import other groups (Diag <- VM, Fmt <- SqlFmt, Opt <- Arith, GoSub <- Opt, Token <- Cache)
+for d in coq/Common $(ls -d coq/*/ | grep -v Common) $(ls -d coq/*/ | grep -v Common); do
   d=${d%/}
   [ -f "$d/_CoqProject" ] || continue
   (cd "$d" && coq_makefile -f _CoqProject -o Makefile.coq >/dev/null 2>&1 && timeout 3000 make -f Makefile.coq -j16 >/dev/null 2>&1) \
-    || echo "setup: $d did not build (its check will report)"
+    || echo "setup: $d did not build yet (second pass / its check will report)"
 done
 echo "setup done"
